@@ -60,7 +60,20 @@ pub fn c06(out: &mut Vec<String>, rng: &mut Rng, tier: &str) {
     }
     // 2. the private stats layer through the hook: integer and real-valued dof, dense level grid
     let reps = if tier == "thorough" { 20000 } else { 2500 };
-    for i in 0..reps {
+    for i in 0..(reps + 2) {
+        // corpus of past findings first: the statrs quantile pocket (known_findings.json)
+        if i >= reps {
+            let dof = f64::from_bits(0x40f3e4c7616392f8);
+            let conf = conf_of(1 + (i - reps) as u64, 0.21);
+            let t = guarded(|| stats_ci::verif::t_value(conf, dof).enc());
+            let z = guarded(|| stats_ci::verif::z_value(conf).enc());
+            let b = guarded(|| {
+                let (lo, hi) = stats_ci::verif::interval_bounds(conf, 0.0, 1.0, dof);
+                format!("{} {}", lo.enc(), hi.enc())
+            });
+            out.push(format!("C06 hook f {} {} => {} | {} | {}", enc_conf(&conf), dof.enc(), t, z, b));
+            continue;
+        }
         let dof = match i % 5 {
             0 => (1 + i / 5 % 300) as f64,
             1 => 0.25 + rng.unit() * 40.0,
